@@ -365,7 +365,15 @@ def playback_internal_failures(o):
     for m in re.finditer(r"^---- \S*?(kani_concrete_playback_\w+) stdout ----\n(.*?)(?=^---- |\Z)", o, re.M | re.S):
         body = m.group(2)
         pm = re.search(r"panicked at ([^\n]*?):\d+:\d+:\n([^\n]*)", body)
-        if pm and (pm.group(1).startswith("library/kani") or "/library/kani/src/" in pm.group(1) or "det vals" in pm.group(2) or "kani::assume" in pm.group(2)):
+        if not pm:
+            continue
+        loc, msg = pm.group(1), pm.group(2)
+        inlib = loc.startswith("library/kani") or "/library/kani/src/" in loc
+        # kani::assert(cond, "msg") (used where assert! would print an unexpanded concat!) panics from
+        # library/kani/src/lib.rs with the harness's own message and `kani::assert` + the harness on the stack:
+        # that IS the replayed check failing, not a failure of the playback machinery
+        harness_assert = inlib and "concrete_playback" not in loc and (re.search(r"^\s+\d+: kani::assert\n", body, re.M) is not None or "stack backtrace:" not in body)
+        if "det vals" in msg or "kani::assume" in msg or (inlib and not harness_assert):
             bad.add(m.group(1))
     return bad
 
